@@ -113,20 +113,41 @@ func goEnv() []string {
 }
 
 func build() {
+	// Development aid (seed regression in parallel): VERIF_REPO_OVERRIDE builds against a
+	// scratch copy of the repository through an alternate go.mod; registered checks never set it.
+	repo := repoDir
+	var extra []string
+	if o := os.Getenv("VERIF_REPO_OVERRIDE"); o != "" {
+		repo = o
+		mod, err := os.ReadFile(filepath.Join(simDir, "go.mod"))
+		if err != nil {
+			die(2, "INFRA: %v", err)
+		}
+		alt := filepath.Join(verifDir, ".scratch", fmt.Sprintf("go.%d.mod", os.Getpid()))
+		os.MkdirAll(filepath.Dir(alt), 0o755)
+		os.WriteFile(alt, []byte(strings.Replace(string(mod), "=> /repo", "=> "+o, 1)), 0o644)
+		sum, _ := os.ReadFile(filepath.Join(o, "go.sum"))
+		os.WriteFile(strings.TrimSuffix(alt, ".mod")+".sum", sum, 0o644)
+		extra = []string{"-modfile=" + alt}
+		defer os.Remove(alt)
+		defer os.Remove(strings.TrimSuffix(alt, ".mod") + ".sum")
+	}
 	// go.sum is a copy of the repository's (same dependency set)
-	b, err := os.ReadFile(filepath.Join(repoDir, "go.sum"))
+	b, err := os.ReadFile(filepath.Join(repo, "go.sum"))
 	if err != nil {
-		die(2, "INFRA: cannot read /repo/go.sum: %v", err)
+		die(2, "INFRA: cannot read %s/go.sum: %v", repo, err)
 	}
 	os.WriteFile(filepath.Join(simDir, "go.sum"), b, 0o644)
 	os.MkdirAll(filepath.Join(verifDir, "bin"), 0o755)
-	cmd := exec.Command(goBin, "test", "-c", "-tags", tags, "-o", binPath, "./worker")
+	args := append([]string{"test", "-c"}, extra...)
+	args = append(args, "-tags", tags, "-o", binPath, "./worker")
+	cmd := exec.Command(goBin, args...)
 	cmd.Dir = simDir
 	cmd.Env = goEnv()
 	out, err := cmd.CombinedOutput()
 	if err != nil {
 		fmt.Fprintf(os.Stderr, "%s\n", out)
-		die(2, "INFRA: build of the simulation worker against /repo failed: %v", err)
+		die(2, "INFRA: build of the simulation worker against %s failed: %v", repo, err)
 	}
 }
 
@@ -645,8 +666,12 @@ func check(prop, tier string) int {
 	if ev["assumptions"] == nil {
 		ev["assumptions"] = []string{}
 	}
-	os.MkdirAll(filepath.Join(verifDir, "evidence"), 0o755)
-	writeJSON(filepath.Join(verifDir, "evidence", prop+".json"), ev)
+	evDir := filepath.Join(verifDir, "evidence")
+	if os.Getenv("VERIF_REPO_OVERRIDE") != "" {
+		evDir = filepath.Join(verifDir, ".scratch", "evidence-override") // not a run against /repo: no evidence
+	}
+	os.MkdirAll(evDir, 0o755)
+	writeJSON(filepath.Join(evDir, prop+".json"), ev)
 	fmt.Printf("%s %s: %d episodes (%d non-trivial, %d distinct signatures), %d steps, %.0fs simulated, %d violations, exit %d, %.1fs\n",
 		prop, tier, tot.Episodes, tot.Nontrivial, len(sigs), tot.Steps, float64(tot.SimTimeNs)/1e9, nviol, exit, wall)
 	return exit
